@@ -1,7 +1,38 @@
-(* Model/FloodCases.v — the two kinds of correspondence cases of the C06 harness: step-exact sequential
-   histories (Model/Flood.v) and concurrent deliveries of one update (Model/FloodConc.v). *)
-From Receptor Require Export Model.Flood Model.FloodConc.
+(* Model/FloodCases.v — the kinds of correspondence cases of the C06 harness: step-exact sequential
+   histories (Model/Flood.v), concurrent deliveries of ONE update (Model/FloodConc.v), and concurrent
+   deliveries of DIFFERENT updates of one origin, checked for linearizability: what the node records for
+   the origin afterwards must be what [handle_update] yields for some order of the batch. *)
+From Receptor Require Export Model.Flood Model.FloodConc Base.Perms.
+Open Scope N_scope.
 
-Inductive c06_case := CFlood (c : flood_case) | CConc (c : conc_case).
+Record seq_case := {
+  q_init : nstate;
+  q_origin : node;
+  q_batch : list (upd * node);           (* delivered by one goroutine each, at the same moment *)
+  q_info : option (N * N);               (* knownNodeInfo[origin] afterwards *)
+  q_row : option (amap N)                (* knownConnectionCosts[origin] afterwards *)
+}.
+
+Definition beq_opt_info (a b : option (N * N)) : bool :=
+  match a, b with
+  | None, None => true
+  | Some (e, s), Some (e', s') => (e =? e') && (s =? s')
+  | _, _ => false
+  end.
+Definition beq_opt_row (a b : option (amap N)) : bool :=
+  match a, b with
+  | None, None => true
+  | Some x, Some y => beq_costs x y
+  | _, _ => false
+  end.
+
+Definition seq_explains (c : seq_case) (p : list (upd * node)) : bool :=
+  let st := fst (run (q_init c) (map (fun x => Recv (fst x) (snd x)) p)) in
+  beq_opt_info (aget (q_origin c) (ns_info st)) (q_info c)
+  && beq_opt_row (aget (q_origin c) (ns_known st)) (q_row c).
+
+Definition seq_check (c : seq_case) : bool := existsb (seq_explains c) (perms (q_batch c)).
+
+Inductive c06_case := CFlood (c : flood_case) | CConc (c : conc_case) | CSeq (c : seq_case).
 Definition c06_check (c : c06_case) : bool :=
-  match c with CFlood f => flood_check f | CConc k => conc_check k end.
+  match c with CFlood f => flood_check f | CConc k => conc_check k | CSeq q => seq_check q end.
